@@ -812,15 +812,16 @@ def _exact_fit(ctx, nz):
                construct='reject [%s]' % K.controlling(node, graph))
     lim = index.find_method(node_cls, 'check_app_affinity_limit')
     ctx.require(lim is not None, 'Node.check_app_affinity_limit')
+    lapp = lim.params()[1]
     for sub in K.walk_no_nested(lim.node):
         if isinstance(sub, ast.Return) and sub.value is not None:
-            atom = nz.atom(sub.value)
-            want = N.cmp_atom(ast.Name(id='count'), '<',
-                              ast.Name(id='limit'))
-            ok = atom.key[0] == 'cmp' and atom.key[1] == '<' and \
-                len(atom.key[2]) == 2 and \
-                [c for _t, c in atom.key[2]] == [c for _t, c in want.key[2]]
-            ctx.ob('C02.7', lim, sub, ok,
+            atom = nz.atom(K.rexpr(lim, sub.value))
+            want = N.cmp_atom(
+                ast.parse('self.affinity_counters[%s.affinity.name]' % lapp,
+                          mode='eval').body, '<',
+                ast.parse('%s.affinity.limits[self.level]' % lapp,
+                          mode='eval').body)
+            ctx.ob('C02.7', lim, sub, atom == want,
                    'affinity head-room test is count < limit: %s' %
                    N.show(atom))
 
